@@ -50,7 +50,7 @@ def q_req(r):
     if k == 'rpc':
         return {'k': 'rpc', 'n': cps(r[1])}
     if k == 'http':
-        return {'k': 'http', 'verb': cps(r[1]), 'path': cps(r[2])}
+        return {'k': 'http', 'verb': cps(r[1]), 'path': cps(r[2]), 'query': cps(r[3] if len(r) > 3 else '')}
     if k in ('rpcb', 'keyb'):                       # the name as msgpack `bin`
         return {'k': k, 'b': list(r[1])}
     if k in ('rawkey', 'rawtag'):                   # bytes spliced into a text body: the parser is a third party (T3 only)
@@ -124,7 +124,7 @@ class Built:
     def __init__(self, spec, order, proto):
         from spyne import Application
         self.spec, self.order, self.proto = spec, list(order), proto
-        self.calls, self.faults = [], []
+        self.calls, self.faults, self.wsdl_hits = [], [], []
         self.error = None          # ('decl'|'build'|'transport', exception class name)
         self.app = self.server = None
         try:
@@ -146,8 +146,13 @@ class Built:
             else:
                 from spyne.server.wsgi import WsgiApplication
                 self.server = WsgiApplication(self.app)
+                self.server.event_manager.add_listener('wsdl', self._on_wsdl)
+                self.server.event_manager.add_listener('wsdl_exception', self._on_wsdl)
         except Exception as e:
             self.error = ('transport', type(e).__name__)
+
+    def _on_wsdl(self, ctx):
+        self.wsdl_hits.append(1)
 
     def _on_fault(self, ctx):
         self.faults.append(str(getattr(ctx.out_error, 'faultcode', type(ctx.out_error).__name__)))
@@ -172,6 +177,7 @@ class Built:
     def request(self, r):
         del self.calls[:]
         del self.faults[:]
+        del self.wsdl_hits[:]
         status, exc = [], None
         try:
             if self.proto == 'null':
@@ -189,14 +195,17 @@ class Built:
                     pass
         except Exception as e:
             exc = type(e).__name__
+        if self.wsdl_hits and not self.calls and not self.faults and not exc:
+            return 'wsdl', (status[0] if status else None)      # the WSDL handler took the request
         return canon_resp(list(self.calls), list(self.faults), exc), (status[0] if status else None)
 
     def _environ(self, r):
         import json
-        body, path, verb, ctype = b'', '/', 'POST', 'text/xml; charset=utf-8'
+        body, path, verb, ctype, query = b'', '/', 'POST', 'text/xml; charset=utf-8', ''
         p = self.proto
         if r[0] == 'http':
             verb, path = r[1], r[2]
+            query = r[3] if len(r) > 3 else ''
         elif r[0] == 'key':
             if p == 'json':
                 body, ctype = json.dumps({r[1]: {}}).encode('utf8'), 'application/json'
@@ -238,7 +247,7 @@ class Built:
                 ctype = 'application/soap+xml; charset=utf-8'
             body = el.encode('utf8')
         return {'PATH_INFO': path, 'SERVER_NAME': 'localhost', 'SERVER_PORT': '80', 'REQUEST_METHOD': verb,
-                'QUERY_STRING': '', 'CONTENT_TYPE': ctype, 'CONTENT_LENGTH': str(len(body)),
+                'QUERY_STRING': query, 'CONTENT_TYPE': ctype, 'CONTENT_LENGTH': str(len(body)),
                 'wsgi.url_scheme': 'http', 'wsgi.input': BytesIO(body)}
 
 
@@ -316,13 +325,36 @@ def measure_facts():
         f['binNames'] = 'lossy'
     else:
         f['binNames'] = 'other'
+    # the transport's decision before dispatch: request for the interface document, or RPC
+    bw = Built(W_PLAIN, [0], 'http')
+
+    def isw(verb, path, qs):
+        try:
+            return bool(bw.server.is_wsdl_request({'REQUEST_METHOD': verb, 'PATH_INFO': path, 'QUERY_STRING': qs}))
+        except Exception:
+            return None
+    obs = tuple(isw('GET', p_, '') for p_ in WSDL_PATH_PROBES)
+    f['wsdlPath'] = ('dotWsdlSuffix' if obs == tuple(p_.endswith('.wsdl') for p_ in WSDL_PATH_PROBES) else
+                     'wsdlSuffix' if obs == tuple(p_.endswith('wsdl') for p_ in WSDL_PATH_PROBES) else 'other')
+    obs = tuple(isw('GET', '/', q_) for q_ in WSDL_QUERY_PROBES)
+    f['wsdlQuery'] = 'firstName' if obs == tuple(q_.split('=')[0].lower() == 'wsdl' for q_ in WSDL_QUERY_PROBES) else 'other'
+    f['wsdlGetOnly'] = all(isw(v_, p_, q_) == (v_.upper() == 'GET') for v_ in WSDL_VERB_PROBES
+                           for p_, q_ in (('/x.wsdl', ''), ('/', 'wsdl')))
     b = Built(W_PATDUP, [0], 'http')
     f['patternDup'] = 'reject' if b.error == ('transport', 'ValueError') else ('arbitrary' if b.error is None else 'other')
     return f
 
 
+WSDL_PATH_PROBES = ['/x.wsdl', '/xwsdl', '/wsdl', '/refresh_wsdl', '/x.WSDL', '/x.wsdl/', '/.wsdl', '/x.wsdlx', '/a.wsdl/b', '/',
+                    '', '/a/b.wsdl', '/getWSDL', '/x_wsdl', '/xwsd']
+WSDL_QUERY_PROBES = ['wsdl', 'WSDL', 'Wsdl=1&a=2', 'wsdl=', 'a=1&wsdl', 'a=x.wsdl', 'a=wsdl', 'wsdl&a=1', 'xwsdl', 'wsdlx=1', '',
+                     'a=1', 'a=1&b=WSDL', 'wsdl=1&a=wsdl', 'a.wsdl=1', 'b=2&wsdl=1', '.wsdl']
+WSDL_VERB_PROBES = ['GET', 'get', 'Get', 'HEAD', 'DELETE', 'POST', 'GETX', 'OPTIONS', '']
+W_WSDLNAME = {'tns': 'tns', 'services': [_svc('A', [{'fid': 1, 'func': 'refresh_wsdl'}, {'fid': 2, 'func': 'wsdl'}])]}
+
 GOOD = {'auxFirst': 'insertFront', 'ifaceDup': 'reject', 'qualify': 'unlessBrace', 'docPrefixesTns': True,
-        'emptyIsNotFound': True, 'patternDup': 'reject', 'binNames': 'strictUtf8'}
+        'emptyIsNotFound': True, 'patternDup': 'reject', 'binNames': 'strictUtf8',
+        'wsdlPath': 'dotWsdlSuffix', 'wsdlQuery': 'firstName', 'wsdlGetOnly': True}
 FACT_WITNESS = {
     'auxFirst': ('an auxiliary service listed before the primary service of the same method name',
                  {'spec': W_AUXFIRST, 'order': [0, 1], 'other_order': [1, 0]}),
@@ -334,6 +366,11 @@ FACT_WITNESS = {
     'emptyIsNotFound': ('unknown name fo', {'spec': W_PLAIN, 'order': [0], 'proto': 'null', 'request': ['null', 'fo']}),
     'binNames': ("a method name sent as msgpack bin that is not valid UTF-8 (b'foo\\xff', b'\\xfefoo', overlong b'\\xc1\\xa6oo')",
                  {'spec': W_PLAIN, 'order': [0], 'proto': 'msgpackrpc', 'request': ['rpcb', [0x66, 0x6F, 0x6F, 0xFF]]}),
+    'wsdlPath': ("GET /refresh_wsdl (no query string, no '.wsdl' extension) on HttpRpc/WsgiApplication: the method must run, not the WSDL handler",
+                 {'spec': W_WSDLNAME, 'order': [0], 'proto': 'http', 'request': ['http', 'GET', '/refresh_wsdl', '']}),
+    'wsdlQuery': ('GET /refresh_wsdl?a=1&wsdl', {'spec': W_WSDLNAME, 'order': [0], 'proto': 'http',
+                                                 'request': ['http', 'GET', '/refresh_wsdl', 'a=1&wsdl']}),
+    'wsdlGetOnly': ('HEAD /wsdl?wsdl', {'spec': W_WSDLNAME, 'order': [0], 'proto': 'http', 'request': ['http', 'HEAD', '/wsdl', 'wsdl']}),
     'patternDup': ('one HttpPattern (GET /same) bound to two methods is accepted; which one answers depends on the '
                    'iteration order of a set of id-hashed objects',
                    {'spec': W_PATDUP, 'order': [0], 'proto': 'http', 'request': ['http', 'GET', '/same']}),
@@ -361,15 +398,23 @@ def facts11 : Facts11 where
   emptyIsNotFound := %s
   patternDup := .%s
   binNames := .%s
+  wsdlPath := .%s
+  wsdlQuery := .%s
+  wsdlGetOnly := %s
 
 end SpyneModel.Generated
 ''' % (lean_text(f['requestSuffix']), lean_text(f['responseSuffix']), f['auxFirst'], f['ifaceDup'], f['qualify'],
-       b(f['docPrefixesTns']), b(f['emptyIsNotFound']), f['patternDup'], f['binNames'])
+       b(f['docPrefixesTns']), b(f['emptyIsNotFound']), f['patternDup'], f['binNames'],
+       f['wsdlPath'], f['wsdlQuery'], b(f['wsdlGetOnly']))
 
 
 # ------------------------------------------------------------------------------------ generators
 WORDS = ['foo', 'bar', 'get', 'item', 'ping']
 CONFUSABLE = {'o': 'о', 'a': 'а', 'e': 'е', 'i': 'і', 'p': 'р'}    # Cyrillic look-alikes
+
+
+WSDLISH = ['wsdl', 'refresh_wsdl', 'getWSDL', 'x.wsdl', 'wsdlx', 'Wsdl', 'svc.wsdl', 'wsdl.']   # names an interface-document
+# request could be confused with
 
 
 def confuse(w):
@@ -455,6 +500,8 @@ def gen_spec(rng, fid0, thorough, http=False):
     tns = rng.choice(['tns', 'urn:app', 'http://example.com/svc', 'T', 'tns.v2'])
     nsvc = rng.choice([1, 2, 2, 3, 3, 4, 4, 5, 6] + ([7, 8] if thorough else []))
     base = rng.sample(WORDS, rng.randrange(1, 4))
+    if rng.random() < 0.3:
+        base += rng.sample(WSDLISH, rng.randrange(1, 4))
     pool = list(base)
     for w in base:
         nm = near_misses(w)
@@ -530,6 +577,9 @@ def directed_specs():
     out.append(('both-op-and-in', {'tns': 'tns', 'services': [S('A', [f(1, 'impl', op='a', **{'in': 'b'})])]}))
     out.append(('dotted-names', {'tns': 'tns', 'services': [S('S', [f(1, 'x.y')]), S('S.x', [f(2, 'y')]), S('B', [f(3, 'foo}'), f(4, 'foo.')])]}))
     out.append(('dotted-iface-collision', {'tns': 'tns', 'services': [S('S', [f(1, 'x.y')]), S('S.x', [f(2, 'z', **{'in': '{%s}y' % OTHER_NS})])]}))
+    out.append(('wsdl-names', {'tns': 'tns', 'services': [S('A', [f(1, 'wsdl'), f(2, 'refresh_wsdl'), f(3, 'status'), f(4, 'x.wsdl')]),
+                                                          S('B', [f(5, 'getWSDL'), f(6, 'wsdlx'), f(7, 'impl', op='svc.wsdl')]),
+                                                          S('X', [f(8, 'refresh_wsdl'), f(9, 'x.wsdl')], aux=True)]}))
     out.append(('confusables', {'tns': 'tns', 'services': [S('A', [f(1, 'ping'), f(2, confuse('ping'))]), S('B', [f(3, 'ping​')])]}))
     P = lambda v, a: [v, a]
     out.append(('patterns-basic', {'tns': 'tns', 'services': [S('A', [f(1, 'foo', patterns=[P(['GET'], '/api/foo')]), f(2, 'bar', patterns=[P(None, '/api/<x>')]), f(3, 'baz', patterns=[P(['GET', 'HEAD'], 'rel/{y}/z')])]), S('X', [f(4, 'foo')], aux=True)]}))
@@ -617,8 +667,11 @@ def requests_for(ctx, spec, names, proto, budget):
         cand += nm[:4] + rng.sample(nm, min(3, len(nm)))
     cand += [w for w in WORDS if w not in reg][:2]
     cand = list(dict.fromkeys(cand))
+    wsdlish = list(dict.fromkeys([n for n in reg if 'wsdl' in n.lower()][:3] + [n0_ + x for n0_ in reg[:1] for x in ('wsdl', '.wsdl', 'WSDL')]
+                                 + ['wsdl', 'xwsdl']))
     if len(cand) > budget:
         cand = reg[:budget // 2] + rng.sample([c for c in cand if c not in reg[:budget // 2]], budget - len(reg[:budget // 2]))
+    cand = cand + [x for x in wsdlish if x not in cand]
     n0 = reg[0] if reg else 'foo'
     reqs = []
     # byte-level candidates: exact encodings of some registered names and near misses of them
@@ -660,6 +713,12 @@ def requests_for(ctx, spec, names, proto, budget):
                      ('http', 'GET', '/%%%02X%s' % (ord(n0[0]), n0[1:])), ('http', 'GET', '/' + n0 + '%00'),
                      ('http', 'GET', '/' + n0 + '%FF'), ('http', 'GET', '/' + n0 + '\x00'), ('http', 'GET', '/' + n0 + '\xff'),
                      ('http', 'GET', '/' + n0 + ';x'), ('http', 'GET', '/' + n0 + '%2F')]
+        # WSDL request or RPC: query strings, the '.wsdl' extension, verbs
+        nw = ([n for n in reg if path_safe(n) and n.lower().endswith('wsdl')] + [n0 if path_safe(n0) else 'foo'])[0]
+        reqs += [('http', 'GET', '/' + nw, q) for q in ('wsdl', 'WSDL=1&a=2', 'a=1&wsdl', 'xwsdl', 'wsdl&a=1', 'a=wsdl', 'wsdlx=1')]
+        reqs += [('http', v, p_, q) for v, p_, q in (('get', '/' + nw + '.wsdl', ''), ('HEAD', '/' + nw, 'wsdl'), ('GET', '/' + nw + '.wsdl', ''),
+                                                    ('GET', '/' + nw + '.WSDL', ''), ('GET', '/x.wsdl/' + nw, ''), ('DELETE', '/' + nw + '.wsdl', ''),
+                                                    ('GET', '/a/' + nw, ''), ('get', '/' + nw, ''), ('GET', '/' + nw + 'wsdl', ''))]
         reqs += pattern_requests(ctx, spec)
     return list(dict.fromkeys(reqs))
 
@@ -964,6 +1023,22 @@ def oracle(ctx, spec, order, proto, r, resp, status, tab, amb):
                                 proto, bytes(bs), 'not valid UTF-8' if text is None else 'UTF-8 of the unregistered %r' % text,
                                 'ran functions %r' % ran if ran else 'was answered with %r' % (resp,)), rep)
             return
+    if r[0] == 'http':
+        # the transport decides first whether this is a request for the interface document: a GET whose query string's
+        # first name is 'wsdl' or whose path has the '.wsdl' extension (spyne/server/wsgi.py, is_wsdl_request)
+        q = r[3] if len(r) > 3 else ''
+        genuine = r[1].upper() == 'GET' and (q.split('=')[0].lower() == 'wsdl' or r[2].endswith('.wsdl'))
+        ran = resp.get('ran') if isinstance(resp, dict) else None
+        if genuine:
+            ctx.hit('t3:wsdl-request')
+            if ran:
+                ctx.finding('wsdl-request:ran', 'the WSDL request %r ran functions %r' % (list(r), ran), rep)
+            return
+        if resp == 'wsdl':
+            ctx.hit('t3-fail:wsdl-shadow')
+            ctx.finding('rpc-shadowed-by-wsdl', "http request %r is not a request for the interface document (no 'wsdl' query, no "
+                        "'.wsdl' extension) but was answered with the WSDL; the method it names never ran / no not-found fault" % (list(r),), rep)
+            return
     name = expected_for(tab, tns, r)
     if r[0] == 'http':
         # an HttpPattern may name the method instead of the last path segment
@@ -1040,6 +1115,15 @@ def address_cases(ctx, Q):
         Q.append(({'op': 'utf8', 'b': list(bs)}, {'ok': None if t is None else cps(t)}, 'utf8', {'bytes': list(bs)}))
         ctx.case({'op': 'utf8', 'b': list(bs)})
         ctx.hit('utf8:' + ('ok' if t is not None else 'reject'))
+    # the WSDL-or-RPC decision alone (T2 against WsgiApplication.is_wsdl_request)
+    bw = Built(W_PLAIN, [0], 'http')
+    for v_ in WSDL_VERB_PROBES:
+        for p_ in WSDL_PATH_PROBES + ['/' + w + x for w in WORDS[:2] for x in ('', 'wsdl', '.wsdl', '.wsdl.', 'WSDL')]:
+            for q_ in (WSDL_QUERY_PROBES if v_ in ('GET', 'get', 'HEAD') else ['', 'wsdl']):
+                impl = {'ok': bool(bw.server.is_wsdl_request({'REQUEST_METHOD': v_, 'PATH_INFO': p_, 'QUERY_STRING': q_}))}
+                Q.append(({'op': 'iswsdl', 'verb': cps(v_), 'path': cps(p_), 'query': cps(q_)}, impl, 'iswsdl', {'verb': v_, 'path': p_, 'query': q_}))
+                ctx.case({'op': 'iswsdl', 'v': v_, 'p': p_, 'q': q_})
+                ctx.hit('iswsdl:' + str(impl['ok']))
     for alts in [a for a in VERBS if a] + [['A', 'AB', 'ABC'], ['ABC', 'AB', 'A'], ['GET']]:
         rx = re.compile('|'.join(alts))
         for verb in ['GET', 'POST', 'GETX', 'GE', '', 'DELETE', 'PUT', 'get', 'A', 'AB', 'ABC', 'ABCD', 'XGET']:
@@ -1050,7 +1134,7 @@ def address_cases(ctx, Q):
 
 
 def compare(ctx, op, q, impl, mod, meta):
-    if op in ('addr', 'verb', 'utf8'):
+    if op in ('addr', 'verb', 'utf8', 'iswsdl'):
         if impl != mod:
             ctx.disagree(('http.' if op != 'utf8' else 'naming.') + op, meta, impl, mod)
         return
